@@ -195,9 +195,10 @@ def gen_rbe(rng, big):
     base = rng.choice([0, 10, 50, 1000000])
     delay8 = 0
     last_arrival = None
-    nss = rng.choice([1, 1, 1, 2, 3, 3, 300 if big else 40])
-    ssrc_pool = [rng.choice([0, 1, 0xFFFFFFFF, rng.randrange(2 ** 32)]) for _ in range(nss)]
-    many = nss > 3 and rng.random() < 0.7
+    nss = 300 if big else rng.choice([1, 1, 1, 2, 3, 3, 40, 270])
+    ssrc_pool = [0, 1, 0xFFFFFFFF][:nss] + [rng.randrange(2 ** 32) for _ in range(max(0, nss - 3))]
+    rng.shuffle(ssrc_pool)
+    many = nss > 3 and (nss > 200 or rng.random() < 0.7)
     next_new = 0
     nseg = rng.randrange(3, 9 if big else 7)
     for seg in range(nseg):
@@ -309,7 +310,7 @@ class C15(Check):
         if k < 5:
             return gen_aimd(rng)
         if k < 9:
-            return gen_rbe(rng, big=(i % 50 == 8))
+            return gen_rbe(rng, big=(i % 20 == 8))
         return gen_remb(rng)
 
     def extra_search_cases(self, rng, n):
